@@ -82,6 +82,52 @@ def job2(j):
     return tag, rec
 
 
+def long_and_oneshot(out, rng):
+    """implementation against the statement, for what the extracted model is too slow for or cannot carry: (a) a message M that is a very
+    long sysex (65 534 .. 70 000 data bytes; a sysex has no length limit) after prefixes, in concatenations and with real-time bytes inside;
+    (b) the stream handed over as a one-shot iterator / generator / itertools.chain (Parser.feed documents any iterable)"""
+    import itertools
+    import mido
+    n = 0
+
+    def expect(what, got, want):
+        if [m.bytes() for m in got] != want:
+            out.failures.append(('resync-long' if 'long' in what else 'resync-iterable', '%s: parsed into messages of lengths %r, expected %r'
+                                 % (what, [len(m.bytes()) for m in got][:8], [len(w) for w in want][:8]), {'component': 'long-and-oneshot', 'what': what}))
+    for size in ([65534, 65535, 65536, 70000] if out.tier == 'quick' else [4095, 65534, 65535, 65536, 65537, 70000, 131072, 200000]):
+        body = [rng.randrange(128) for _ in range(size)]
+        syx = [0xf0] + body + [0xf7]
+        for P, pm in (([], []), ([0x90, 1], []), ([0xf0, 1, 2], []), ([0x80, 1, 2, 0xf2, 5], [[0x80, 1, 2]])):
+            n += 1
+            try:
+                expect('long sysex (%d data bytes) after prefix %r' % (size, P), mido.parser.parse_all(P + syx), pm + [syx])
+            except Exception as e:  # noqa: BLE001
+                out.failures.append(('resync-long-raises', 'a sysex of %d data bytes after prefix %r raised %r' % (size, P, e), {'component': 'long-and-oneshot'}))
+        n += 2
+        try:
+            expect('long sysex between two messages', mido.parser.parse_all([0x90, 1, 2] + syx + [0xc0, 5]), [[0x90, 1, 2], syx, [0xc0, 5]])
+            k = rng.randrange(size)
+            expect('long sysex with a real-time byte inside', mido.parser.parse_all([0xf0] + body[:k] + [0xfe] + body[k:] + [0xf7]), [[0xfe], syx])
+        except Exception as e:  # noqa: BLE001
+            out.failures.append(('resync-long-raises', 'a sysex of %d data bytes raised %r' % (size, e), {'component': 'long-and-oneshot'}))
+    for _ in range(200):
+        P = pc.random_stream(rng, 12)
+        mi = canon.random_message(rng, sysex_max=6)
+        enc = canon.std_layout(mi)
+        want = [m.bytes() for m in mido.parser.parse_all(P)] + [enc]
+        for what, make in (('iter', lambda: iter(P + enc)), ('generator', lambda: (b for b in P + enc)), ('chain', lambda: itertools.chain(P, enc)), ('map', lambda: map(int, P + enc))):
+            n += 1
+            try:
+                expect('prefix %r + %r given as %s' % (P, enc, what), mido.parser.parse_all(make()), want)
+                p = mido.Parser()
+                p.feed(make())
+                expect('Parser.feed(%s) of prefix %r + %r' % (what, P, enc), list(p), want)
+            except Exception as e:  # noqa: BLE001
+                out.failures.append(('resync-iterable-raises', 'prefix %r + %r given as %s raised %r' % (P, enc, what, e), {'component': 'long-and-oneshot'}))
+    out.evaluations += n
+    out.components['long messages and one-shot iterables (implementation against the statement)'] = {'cases': n}
+
+
 def run(out):
     rng = random.Random(out.seed)
     msgs = [m for m in canon.boundary_messages() if m[0] != 7 or m[1] <= 2]
@@ -119,6 +165,7 @@ def run(out):
     jobs += [('rtsysex', rtcases[i:i + step]) for i in range(0, len(rtcases), step)]
     for tag, rec in core.pmap(job2, jobs):
         core.merge_into(out, rec, tag)
+    long_and_oneshot(out, rng)
     out.rule = ('prefix P + encoding of M: every string of length <= %d over the 17-symbol class alphabet, cut-short messages, open sysex and '
                 'random streams as P, with boundary messages of all 18 types as M (%d cases); sysex payloads of length 0..%d with 1-5 '
                 'real-time bytes (defined and undefined) inserted at every position (%d cases). Oracle: parse_all(P+enc M) == parse_all(P)+[M]; '
